@@ -157,6 +157,11 @@ def op_update(op, kind='vars', ts=1):
     name = op[0]
     if name == 'add':
         _, c, k = op
+        if k[0] == 'b':
+            # a turnover update in which something is born and nothing
+            # dies: the empty list is a no-op
+            return {c: {'_add': [{'key': k, 'state': {'v': 5}}],
+                        '_delete': []}}
         return {c: {'_add': [{'key': k, 'state': {'v': 5}}]}}
     if name == 'del':
         _, c, k = op
